@@ -5,6 +5,7 @@
    the file with PATH = a directory of stub programs that dump their argv and stdin; a DEBUG trap logs every simple
    command the shell executes; independent reference decoders turn the argv back into a request):
      [k |-> "run", fmt |-> "curl" | "httpie", field |-> the field that carries the generated string ("mixed": several),
+      cls   |-> the character classes of that string (<<>> for hand-made strings; informational),
       cmds  |-> << names of the simple commands the shell executed, in order >>   ("curl", "http", "printf", ...)
       nprog |-> how often the stub of the target program ran,
       other |-> how many other programs were looked up or run (planted canary program, unknown command names),
